@@ -371,6 +371,7 @@ def _unscheduled_observer(ctx):
         chk.ok("R05.e", upd.qualname, upd.loc(), "pops head of the dispatched job's deque")
     # reset: rebinds the per-job list from a comprehension over instance.jobs
     ok = False
+    shallow = None
     for n in own_nodes(rst.node):
         if isinstance(n, ast.Assign) and any(
             isinstance(t, ast.Attribute) and t.attr == "unscheduled_operations_per_job" for t in n.targets
@@ -380,6 +381,28 @@ def _unscheduled_observer(ctx):
                 it = v.generators[0].iter
                 if isinstance(it, ast.Attribute) and it.attr == "jobs":
                     ok = True
+                elif (
+                    isinstance(it, ast.Attribute) and ast.unparse(it.value) == rst.params[0]
+                    and isinstance(v.elt, ast.Call) and ast.unparse(v.elt.func).split(".")[-1] in ("deque", "deepcopy", "copy")
+                ):
+                    # fresh deques copied one by one from a stored template
+                    # (C12's pristine-source rule guards the template)
+                    ok = True
+            elif isinstance(v, ast.Call) and ast.unparse(v.func).split(".")[-1] == "deepcopy":
+                ok = True
+            else:
+                src = _shallow_source(v, rst.params[0])
+                if src is not None:
+                    shallow = (src, n)
+    if shallow is not None and not ok:
+        chk.violation(
+            "R05.e", rst, shallow[1],
+            f"reset rebinds the mirror to a shallow copy of `self.{shallow[0]}`: the per-job deques themselves are "
+            "shared with the stored template, update pops from them, and after the first episode the template "
+            "(and every later reset) is missing the dispatched operations",
+            loc=rst.loc(shallow[1]),
+        )
+        return
     if ok:
         chk.ok("R05.e", rst.qualname, rst.loc(), "rebuilds one deque per job from instance.jobs")
     else:
@@ -397,6 +420,26 @@ def _unscheduled_observer(ctx):
             )
         else:
             raise AnalysisError(f"{rst.qualname}: reset shape not recognised")
+
+
+def _shallow_source(v, selfname):
+    """X if ``v`` is self.X or a one-level copy of it (list(self.X),
+    self.X.copy(), self.X[:], copy.copy(self.X))."""
+    def attr(e):
+        if isinstance(e, ast.Attribute) and isinstance(e.value, ast.Name) and e.value.id == selfname and e.attr != "dispatcher":
+            return e.attr
+        return None
+    if attr(v):
+        return attr(v)
+    if isinstance(v, ast.Subscript) and isinstance(v.slice, ast.Slice) and attr(v.value):
+        return attr(v.value)
+    if isinstance(v, ast.Call):
+        fn = ast.unparse(v.func)
+        if fn in ("list", "tuple", "copy.copy", "copy") and len(v.args) == 1 and attr(v.args[0]):
+            return attr(v.args[0])
+        if isinstance(v.func, ast.Attribute) and v.func.attr == "copy" and not v.args and attr(v.func.value):
+            return attr(v.func.value)
+    return None
 
 
 def _deque_index(fi, tgt):
